@@ -36,6 +36,11 @@ def roundtrip(ctx, m, legacy, sub, as_bytes = False):
 			new = dm.TxMsg() if m["dir"] == "tx" else dm.RxMsg()
 		REUSE[0] += 1
 		new.parse_msg(data)
+		if not as_bytes:
+			# the receive buffer is re-used for the next datagram: the decoded message must not change with it
+			for i in range(len(data)):
+				data[i] = 0xa5
+			ctx.count("receive_buffer_reused_after_parse")
 	except Exception as e:
 		ctx.violation(sub, witness, what = "valid message fails to round-trip: %s: %s"
 			% (type(e).__name__, e))
